@@ -427,7 +427,7 @@ Proof.
     rewrite N.pow_add_r in H0. change (2 ^ 1) with 2 in H0. lia.
   - destruct (Nat.eq_dec k 1) as [E|E]; [left; exact E|right].
     rewrite fits_mag by lia. fold m. rewrite P256_two.
-    assert (Hm : m <> 0). { intro E0. subst s. rewrite E0, bitlen_0 in *. subst k. cbn in E. lia. }
+    assert (Hm : m <> 0). { intro E0. apply E. unfold k, s. rewrite E0. reflexivity. }
     pose proof (bitlen_bounds m Hm) as [Hlo _]. pose proof (bitlen_pos m Hm). fold s in Hlo, H.
     assert (2 ^ (8 * N.of_nat (k - 1)) <= 2 ^ s) by (apply pow2_le; lia).
     replace s with (s - 1 + 1) in H0 by lia. rewrite N.pow_add_r in H0. change (2 ^ 1) with 2 in H0. lia.
@@ -455,3 +455,733 @@ Proof.
 Qed.
 Lemma tc_enc_nonredundant z : redundant (tc_enc z) = false.
 Proof. apply canon_bytes_nonredundant, tc_len_spec. Qed.
+
+(* ================================================================== *)
+(* 5. the encoders of intconv/bytes.go produce the canonical encoding  *)
+(* ================================================================== *)
+
+(* ---- bit operations as arithmetic ---- *)
+Lemma zland255 v : Z.land v 255 = (v mod 256)%Z.
+Proof. change 255%Z with (Z.ones 8). rewrite Z.land_ones by lia. reflexivity. Qed.
+Lemma zshiftr8 v : Z.shiftr v 8 = (v / 256)%Z.
+Proof. rewrite Z.shiftr_div_pow2 by lia. reflexivity. Qed.
+Lemma zland_m128 v : Z.land v (-128) = (128 * (v / 128))%Z.
+Proof.
+  change (-128)%Z with (Z.lnot (Z.ones 7)).
+  rewrite <- Z.ldiff_land, Z.ldiff_ones_r, Z.shiftl_mul_pow2, Z.shiftr_div_pow2 by lia.
+  change (2 ^ 7)%Z with 128%Z. lia.
+Qed.
+Lemma nland255 v : N.land v 255 = v mod 256.
+Proof. change 255 with (N.ones 8). rewrite N.land_ones. reflexivity. Qed.
+Lemma nshiftr8 v : N.shiftr v 8 = v / 256.
+Proof. rewrite N.shiftr_div_pow2. reflexivity. Qed.
+
+Lemma P256_8 : P256 8 = 18446744073709551616.
+Proof. rewrite P256_two. reflexivity. Qed.
+Lemma P256_9 : P256 9 = 256 * 18446744073709551616.
+Proof. rewrite P256_S, P256_8. reflexivity. Qed.
+
+Lemma tc_bytes_0 z : tc_bytes 0 z = [].
+Proof. reflexivity. Qed.
+Lemma tc_bytes_1 z : tc_bytes 1 z = [Z.to_N (z mod 256)%Z].
+Proof. rewrite tc_bytes_snoc, tc_bytes_0. reflexivity. Qed.
+
+(* ---- Int64ToBytes ---- *)
+Lemma int64_loop_spec n : forall v acc, (1 <= n)%nat -> fits n v ->
+  exists k, (k <= n)%nat /\ canon_len k v /\
+    int64_loop n (if (v <? 0)%Z then (-128)%Z else 0%Z) v acc = tc_bytes k v ++ acc.
+Proof.
+  induction n as [|m IH]; intros v acc Hn Hf; [lia|].
+  cbn [int64_loop]. rewrite zland_m128, zland255, zshiftr8.
+  destruct (Z.eqb_spec (128 * (v / 128)) (if (v <? 0)%Z then (-128)%Z else 0%Z)) as [E|E].
+  - assert (F1 : fits 1 v) by (apply fits_1; destruct (Z.ltb_spec v 0); lia).
+    exists 1%nat. split; [lia|]. split; [unfold canon_len; auto|].
+    rewrite tc_bytes_1. reflexivity.
+  - assert (F1 : ~ fits 1 v) by (rewrite fits_1; destruct (Z.ltb_spec v 0); lia).
+    assert (Hm : (1 <= m)%nat) by (destruct m; [tauto|lia]).
+    assert (Hf' : fits m (v / 256)%Z) by (apply fits_div; assumption).
+    destruct (IH (v / 256)%Z (Z.to_N (v mod 256) :: acc) Hm Hf') as (k' & Hk' & Hc & Hr).
+    replace (v / 256 <? 0)%Z with (v <? 0)%Z in Hr by lia.
+    exists (S k'). split; [lia|]. destruct Hc as (H1 & Hfk & Hmin). split.
+    + unfold canon_len. split; [lia|]. split; [apply fits_div; assumption|].
+      right. replace (S k' - 1)%nat with k' by lia.
+      destruct (Nat.eq_dec k' 1) as [->|Hne]; [exact F1|].
+      destruct Hmin as [?|Hmin]; [lia|]. intro Hc. apply Hmin.
+      replace k' with (S (k' - 1)) in Hc by lia. apply fits_div in Hc; [exact Hc|lia].
+    + rewrite Hr, tc_bytes_snoc, <- app_assoc. reflexivity.
+Qed.
+
+Lemma in_int64_fits v : in_int64 v = true -> fits 8 v.
+Proof. unfold in_int64, fits. rewrite P256_8. lia. Qed.
+
+Lemma int64_to_bytes_spec v : in_int64 v = true -> int64_to_bytes v = tc_enc v.
+Proof.
+  intro H. unfold int64_to_bytes, tc_enc. destruct (Z.eqb_spec v 0) as [->|Hv]; [reflexivity|].
+  destruct (int64_loop_spec 8 v [] ltac:(lia) (in_int64_fits v H)) as (k & _ & Hc & ->).
+  rewrite app_nil_r. now rewrite (tc_len_unique k v Hc).
+Qed.
+
+(* ---- Uint64ToBytes: the same loop on a non-negative value, 9 slots ---- *)
+Lemma uint64_loop_int64 n : forall v acc,
+  uint64_loop n v acc = int64_loop n 0%Z (Z.of_N v) acc.
+Proof.
+  induction n as [|m IH]; intros v acc; [reflexivity|].
+  cbn [uint64_loop int64_loop]. rewrite zland_m128, zland255, zshiftr8, nland255, nshiftr8.
+  rewrite land128 by (apply N.mod_lt; discriminate).
+  replace (Z.to_N (Z.of_N v mod 256)) with (v mod 256) by lia.
+  replace (128 * (Z.of_N v / 128) =? 0)%Z with ((v / 256 =? 0) && (v mod 256 <? 128)) by lia.
+  destruct ((v / 256 =? 0) && (v mod 256 <? 128)); [reflexivity|].
+  rewrite IH. f_equal. lia.
+Qed.
+
+Lemma uint64_to_bytes_spec v : v < 2 ^ 64 -> uint64_to_bytes v = tc_enc (Z.of_N v).
+Proof.
+  intro H. unfold uint64_to_bytes, tc_enc. destruct (N.eqb_spec v 0) as [->|Hv]; [reflexivity|].
+  rewrite uint64_loop_int64.
+  assert (Hf : fits 9 (Z.of_N v)) by (unfold fits; rewrite P256_9; lia).
+  destruct (int64_loop_spec 9 (Z.of_N v) [] ltac:(lia) Hf) as (k & _ & Hc & Hr).
+  replace (Z.of_N v <? 0)%Z with false in Hr by lia.
+  rewrite Hr, app_nil_r. now rewrite (tc_len_unique k _ Hc).
+Qed.
+
+(* ---- SizeToBytes: minimal unsigned form ---- *)
+Lemma size_loop_spec n : forall v acc, (1 <= n)%nat -> v <> 0 -> v < P256 n ->
+  exists k, (1 <= k <= n)%nat /\ ulen k v /\ size_loop n v acc = be_bytes k v ++ acc.
+Proof.
+  induction n as [|m IH]; intros v acc Hn Hv Hlt; [lia|].
+  cbn [size_loop]. rewrite nland255, nshiftr8.
+  destruct (N.eqb_spec (v / 256) 0) as [E|E].
+  - exists 1%nat. split; [lia|]. split.
+    + unfold ulen. rewrite P256_S, P256_0. cbn [Nat.sub]. rewrite P256_0. lia.
+    + rewrite be_bytes_snoc. reflexivity.
+  - rewrite P256_S in Hlt.
+    assert (Hm : (1 <= m)%nat). { destruct m; [rewrite P256_0 in Hlt; lia|lia]. }
+    destruct (IH (v / 256) (v mod 256 :: acc) Hm E ltac:(lia)) as (k' & Hk' & (Hu1 & Hu2) & Hr).
+    exists (S k'). split; [lia|]. split.
+    + unfold ulen. rewrite P256_S. split; [lia|]. right.
+      replace (S k' - 1)%nat with (S (k' - 1)) by lia. rewrite P256_S.
+      destruct Hu2 as [?|Hu2]; [lia|]. lia.
+    + rewrite Hr, be_bytes_snoc, <- app_assoc. reflexivity.
+Qed.
+
+Lemma size_to_bytes_spec v : v < 2 ^ 64 ->
+  exists k, (1 <= k <= 8)%nat /\ size_to_bytes v = be_bytes k v /\ v < P256 k /\
+            (v <> 0 -> P256 (k - 1) <= v).
+Proof.
+  intro H. unfold size_to_bytes. destruct (N.eqb_spec v 0) as [->|Hv].
+  - exists 1%nat. split; [lia|]. split; [reflexivity|]. pose proof (P256_pos 1). split; [lia|congruence].
+  - assert (Hlt : v < P256 8) by (rewrite P256_8; exact H).
+    destruct (size_loop_spec 8 v [] ltac:(lia) Hv Hlt) as (k & Hk & (Hu1 & Hu2) & ->).
+    exists k. rewrite app_nil_r. split; [exact Hk|]. split; [reflexivity|]. split; [exact Hu1|].
+    intros _. destruct Hu2; [lia|assumption].
+Qed.
+
+Lemma size_to_bytes_nat_bytes v : v <> 0 -> v < 2 ^ 64 -> size_to_bytes v = nat_bytes v.
+Proof.
+  intros Hv H. destruct (size_to_bytes_spec v H) as (k & Hk & -> & Hlt & Hlo).
+  symmetry. apply nat_bytes_of_ulen. split; [exact Hlt|right; auto].
+Qed.
+
+Lemma be_val_size_to_bytes v : v < 2 ^ 64 -> be_val (size_to_bytes v) = v.
+Proof.
+  intro H. destruct (size_to_bytes_spec v H) as (k & _ & -> & Hlt & _).
+  rewrite be_val_be_bytes. now apply N.mod_small.
+Qed.
+
+(* ---- BigIntToBytes ---- *)
+Lemma tc_bytes_nonneg k z : (0 <= z)%Z -> Z.to_N z < P256 k -> tc_bytes k z = be_bytes k (Z.to_N z).
+Proof. intros H0 H. rewrite tc_bytes_eq, Z.mod_small by lia. reflexivity. Qed.
+
+Lemma bigint_to_bytes_spec z : bigint_to_bytes z = tc_enc z.
+Proof.
+  pose proof (tc_len_spec z) as (HK1 & HKf & _). unfold tc_enc.
+  destruct z as [|p|p]; [reflexivity| |].
+  - cbn [bigint_to_bytes]. set (n := Z.to_N (Z.pos p)).
+    apply fits_mag in HKf; [|exact HK1]. rewrite tc_len_eq in *.
+    replace (mag (Z.pos p)) with n in * by reflexivity.
+    pose proof (nat_bytes_len n) as Hu. rewrite (nat_bytes_of_ulen _ _ Hu).
+    rewrite tc_bytes_nonneg by (fold n; lia). fold n.
+    destruct (N.eqb_spec (bitlen n mod 8) 0) as [E|E].
+    + replace (N.to_nat (bitlen n / 8 + 1)) with (S (N.to_nat ((bitlen n + 7) / 8))) by lia.
+      rewrite be_bytes_small_head; [reflexivity|apply Hu].
+    + replace (N.to_nat (bitlen n / 8 + 1)) with (N.to_nat ((bitlen n + 7) / 8)) by lia. reflexivity.
+  - cbn [bigint_to_bytes]. set (z := Z.neg p) in *. assert (Hz : (z < 0)%Z) by (subst z; lia).
+    pose proof HKf as HKm. apply fits_mag in HKm; [|exact HK1]. rewrite tc_len_eq in *.
+    replace (Z.abs_N (z + 1)) with (mag z)
+      by (apply N2Z.inj; rewrite N2Z.inj_abs_N; unfold mag; destruct (Z.ltb_spec z 0); lia).
+    set (K := N.to_nat (bitlen (mag z) / 8 + 1)) in *.
+    replace ((bitlen (mag z) + 8) / 8 * 8) with (8 * N.of_nat K) by lia.
+    replace (2 ^ Z.of_N (8 * N.of_nat K))%Z with (ZP K)
+      by (rewrite P256_two, N2Z.inj_pow; reflexivity).
+    unfold fits in HKf. rewrite tc_bytes_eq, zmod_neg by lia. rewrite (Z.add_comm (ZP K) z).
+    apply nat_bytes_of_ulen. destruct K as [|j]; [lia|]. unfold ulen.
+    replace (S j - 1)%nat with j by lia. rewrite P256_S in *. pose proof (P256_pos j). lia.
+Qed.
+
+Lemma int64_eq_bigint v : in_int64 v = true -> int64_to_bytes v = bigint_to_bytes v.
+Proof. intro H. now rewrite int64_to_bytes_spec, bigint_to_bytes_spec. Qed.
+
+Lemma uint64_eq_bigint v : v < 2 ^ 64 -> uint64_to_bytes v = bigint_to_bytes (Z.of_N v).
+Proof. intro H. now rewrite uint64_to_bytes_spec, bigint_to_bytes_spec. Qed.
+
+(* ================================================================== *)
+(* 6. the decoders of intconv/bytes.go                                 *)
+(* ================================================================== *)
+Lemma bigint_set_bytes_spec bs : bytes_ok bs = true -> bigint_set_bytes bs = tc_val bs.
+Proof.
+  intro H. destruct bs as [|b r]; [reflexivity|].
+  pose proof (be_val_lt _ H) as Hlt. apply bytes_ok_cons in H as [Hb Hr].
+  unfold bigint_set_bytes. rewrite tc_val_cons, land128 by exact Hb.
+  destruct (N.ltb_spec b 128) as [L|L]; cbn [negb]; [reflexivity|].
+  f_equal. cbn [length] in *. pose proof (P256_pos (length r)).
+  rewrite (bitlen_unique (be_val (b :: r)) (8 * N.of_nat (S (length r)))).
+  - rewrite P256_two, N2Z.inj_pow. reflexivity.
+  - lia.
+  - rewrite <- P256_two. split; [|exact Hlt].
+    replace (8 * N.of_nat (S (length r)) - 1) with (7 + 8 * N.of_nat (length r)) by lia.
+    rewrite N.pow_add_r, <- P256_two, be_val_cons. change (2 ^ 7) with 128. nia.
+Qed.
+
+Lemma be_val_compl bs : bytes_ok bs = true ->
+  be_val (map (fun x => N.lxor x 255) bs) + be_val bs + 1 = P256 (length bs).
+Proof.
+  induction bs as [|b r IH]; intro H.
+  - cbn [map length]. rewrite be_val_nil, P256_0. reflexivity.
+  - apply bytes_ok_cons in H as [Hb Hr]. specialize (IH Hr).
+    cbn [map length]. rewrite !be_val_cons, map_length, P256_S, lxor255 by exact Hb. nia.
+Qed.
+
+Lemma bytes_to_int64_spec bs : bytes_ok bs = true ->
+  bytes_to_int64 bs = if Nat.ltb 8 (length bs) then None else Some (tc_val bs).
+Proof.
+  intro H. destruct bs as [|b r]; [reflexivity|].
+  pose proof (be_val_compl _ H) as Hc. pose proof H as H'. apply bytes_ok_cons in H' as [Hb Hr].
+  unfold bytes_to_int64. destruct (Nat.ltb 8 (length (b :: r))); [reflexivity|].
+  rewrite tc_val_cons, land128 by exact Hb. cbn [length] in *.
+  destruct (N.ltb_spec b 128); cbn [negb]; f_equal. lia.
+Qed.
+
+Lemma tc_val_int64_range bs : bytes_ok bs = true -> (length bs <= 8)%nat -> in_int64 (tc_val bs) = true.
+Proof.
+  intros H Hl. destruct bs as [|b r]; [reflexivity|].
+  assert (Hf : fits 8 (tc_val (b :: r))).
+  { apply (fits_mono (length (b :: r))); [exact Hl|]. apply tc_val_fits; [exact H|discriminate]. }
+  unfold fits in Hf. rewrite P256_8 in Hf. unfold in_int64. lia.
+Qed.
+
+(* SafeBytesToUint64: an optional leading 0x00, then at most 8 bytes, first byte < 0x80 *)
+Lemma bytes_to_uint64_spec bs : bytes_ok bs = true ->
+  bytes_to_uint64 bs =
+    match bs with
+    | [] => Some 0
+    | b :: r =>
+        if b =? 0 then (if Nat.ltb 8 (length r) then None else Some (be_val bs))
+        else if 128 <=? b then None
+        else if Nat.ltb 8 (length bs) then None else Some (be_val bs)
+    end.
+Proof.
+  intro H. destruct bs as [|b r]; [reflexivity|]. apply bytes_ok_cons in H as [Hb Hr].
+  unfold bytes_to_uint64. rewrite land128 by exact Hb.
+  destruct (N.eqb_spec b 0) as [->|Hn].
+  - rewrite be_val_cons. replace (0 * P256 (length r) + be_val r) with (be_val r) by lia. reflexivity.
+  - destruct (N.ltb_spec b 128), (N.leb_spec 128 b); try lia; reflexivity.
+Qed.
+
+Lemma bytes_to_uint64_value bs v : bytes_ok bs = true ->
+  bytes_to_uint64 bs = Some v -> Z.of_N v = tc_val bs /\ v < 2 ^ 64.
+Proof.
+  intros H E. rewrite bytes_to_uint64_spec in E by exact H. destruct bs as [|b r].
+  - inversion E; subst. split; reflexivity.
+  - pose proof (be_val_lt _ H) as Hlt. pose proof H as H'. apply bytes_ok_cons in H' as [Hb Hr].
+    pose proof (be_val_lt _ Hr) as Hlr. rewrite tc_val_cons. cbn [length] in *.
+    change (2 ^ 64) with 18446744073709551616. rewrite <- P256_8.
+    destruct (N.eqb_spec b 0) as [->|Hn].
+    + destruct (Nat.ltb_spec 8 (length r)); [discriminate|]. inversion E; subst. split; [reflexivity|].
+      rewrite be_val_cons. pose proof (P256_le (length r) 8). lia.
+    + destruct (N.leb_spec 128 b); [discriminate|].
+      destruct (Nat.ltb_spec 8 (S (length r))); [discriminate|]. inversion E; subst.
+      replace (b <? 128) with true by lia. split; [reflexivity|].
+      pose proof (P256_le (S (length r)) 8). lia.
+Qed.
+
+(* accept / reject sets *)
+Lemma bytes_to_int64_reject bs : bytes_to_int64 bs = None <-> (8 < length bs)%nat.
+Proof.
+  destruct bs as [|b r]; [cbn; split; [discriminate|lia]|].
+  unfold bytes_to_int64. destruct (Nat.ltb_spec 8 (length (b :: r))).
+  - tauto.
+  - destruct (negb (N.land b 128 =? 0)); split; (discriminate || lia).
+Qed.
+
+Lemma bytes_to_size64_reject bs : bytes_to_size64 bs = None <-> (8 < length bs)%nat.
+Proof.
+  destruct bs as [|b r]; [cbn; split; [discriminate|lia]|].
+  unfold bytes_to_size64. destruct (Nat.ltb_spec 8 (length (b :: r))); split; (tauto || discriminate || lia).
+Qed.
+
+Lemma bytes_to_size64_value bs : (length bs <= 8)%nat -> bytes_to_size64 bs = Some (be_val bs).
+Proof.
+  intro H. destruct bs as [|b r]; [reflexivity|]. unfold bytes_to_size64.
+  destruct (Nat.ltb_spec 8 (length (b :: r))); [lia|reflexivity].
+Qed.
+
+Lemma bytes_to_uint64_reject bs : bytes_ok bs = true ->
+  bytes_to_uint64 bs = None <->
+  exists b r, bs = b :: r /\
+    (128 <= b \/ (b = 0 /\ (8 < length r)%nat) \/ (0 < b < 128 /\ (8 < length bs)%nat)).
+Proof.
+  intro H. rewrite bytes_to_uint64_spec by exact H. destruct bs as [|b r].
+  - split; [discriminate|]. intros (b & r & E & _). discriminate.
+  - split.
+    + intro E. exists b, r. split; [reflexivity|].
+      destruct (N.eqb_spec b 0) as [->|Hn].
+      * destruct (Nat.ltb_spec 8 (length r)); [|discriminate]. right. left. lia.
+      * destruct (N.leb_spec 128 b); [left; lia|].
+        destruct (Nat.ltb_spec 8 (length (b :: r))); [|discriminate]. right. right. lia.
+    + intros (b' & r' & E & Hc). inversion E; subst b' r'.
+      destruct (N.eqb_spec b 0) as [->|Hn].
+      * destruct (Nat.ltb_spec 8 (length r)); [reflexivity|]. lia.
+      * destruct (N.leb_spec 128 b); [reflexivity|].
+        destruct (Nat.ltb_spec 8 (length (b :: r))); [reflexivity|]. lia.
+Qed.
+
+(* ---- round trips ---- *)
+Lemma bigint_roundtrip z : bigint_set_bytes (bigint_to_bytes z) = z.
+Proof.
+  rewrite bigint_to_bytes_spec, bigint_set_bytes_spec by apply tc_enc_ok. apply tc_val_enc.
+Qed.
+
+Lemma tc_len_int64 v : in_int64 v = true -> (tc_len v <= 8)%nat.
+Proof.
+  intro H. pose proof (tc_len_spec v) as (H1 & _ & Hm).
+  destruct Hm as [->|Hn]; [lia|]. destruct (le_lt_dec (tc_len v) 8); [assumption|].
+  exfalso. apply Hn. apply (fits_mono 8); [lia|]. now apply in_int64_fits.
+Qed.
+
+Lemma int64_roundtrip v : in_int64 v = true -> bytes_to_int64 (int64_to_bytes v) = Some v.
+Proof.
+  intro H. rewrite int64_to_bytes_spec by exact H.
+  rewrite bytes_to_int64_spec by apply tc_enc_ok. rewrite tc_enc_length, tc_val_enc.
+  pose proof (tc_len_int64 v H). destruct (Nat.ltb_spec 8 (tc_len v)); [lia|reflexivity].
+Qed.
+
+Lemma tc_len_uint64 v : v < 2 ^ 64 -> (tc_len (Z.of_N v) <= 9)%nat.
+Proof.
+  intro H. pose proof (tc_len_spec (Z.of_N v)) as (H1 & _ & Hm).
+  destruct Hm as [->|Hn]; [lia|]. destruct (le_lt_dec (tc_len (Z.of_N v)) 9); [assumption|].
+  exfalso. apply Hn. apply (fits_mono 9); [lia|]. unfold fits. rewrite P256_9. lia.
+Qed.
+
+Lemma uint64_roundtrip v : v < 2 ^ 64 -> bytes_to_uint64 (uint64_to_bytes v) = Some v.
+Proof.
+  intro H. rewrite uint64_to_bytes_spec by exact H. set (z := Z.of_N v).
+  pose proof (tc_enc_ok z) as Hok. pose proof (tc_val_enc z) as Hv. pose proof (tc_enc_length z) as Hl.
+  pose proof (tc_enc_nonredundant z) as Hr. pose proof (tc_len_uint64 v H) as H9. fold z in H9.
+  rewrite bytes_to_uint64_spec by exact Hok.
+  destruct (tc_enc z) as [|b r] eqn:E; [now apply tc_enc_nonempty in E|].
+  pose proof (be_val_lt _ Hok) as Hlt. apply bytes_ok_cons in Hok as [Hb Hrr].
+  rewrite tc_val_cons in Hv. cbn [length] in *.
+  destruct (N.ltb_spec b 128) as [L|L]; [|subst z; lia].
+  replace (128 <=? b) with false by lia.
+  destruct (N.eqb_spec b 0) as [->|Hn].
+  - destruct (Nat.ltb_spec 8 (length r)); [lia|]. f_equal. subst z. lia.
+  - destruct (Nat.ltb_spec 8 (S (length r))) as [L9|L9]; [|f_equal; subst z; lia].
+    (* 9 bytes with a first byte in 1..127 would be >= 2^64 *)
+    exfalso. assert (length r = 8%nat) by lia. rewrite be_val_cons in Hv. rewrite H0, P256_8 in *. subst z. lia.
+Qed.
+
+Lemma size_roundtrip v : v < 2 ^ 64 -> bytes_to_size64 (size_to_bytes v) = Some v.
+Proof.
+  intro H. destruct (size_to_bytes_spec v H) as (k & Hk & E & Hlt & _).
+  rewrite bytes_to_size64_value by (rewrite E, be_bytes_length; lia).
+  now rewrite be_val_size_to_bytes.
+Qed.
+
+(* ================================================================== *)
+(* 7. minimality / uniqueness of BigIntToBytes                         *)
+(* ================================================================== *)
+Lemma bigint_to_bytes_ok z : bytes_ok (bigint_to_bytes z) = true.
+Proof. rewrite bigint_to_bytes_spec. apply tc_enc_ok. Qed.
+
+Lemma bigint_to_bytes_nonempty z : bigint_to_bytes z <> [].
+Proof. rewrite bigint_to_bytes_spec. apply tc_enc_nonempty. Qed.
+
+Lemma bigint_to_bytes_length z : length (bigint_to_bytes z) = tc_len z.
+Proof. rewrite bigint_to_bytes_spec. apply tc_enc_length. Qed.
+
+Lemma bigint_nonredundant z : redundant (bigint_to_bytes z) = false.
+Proof. rewrite bigint_to_bytes_spec. apply tc_enc_nonredundant. Qed.
+
+Lemma bigint_first_byte z b0 b1 r : bigint_to_bytes z = b0 :: b1 :: r ->
+  ~ (b0 = 0 /\ b1 < 128) /\ ~ (b0 = 255 /\ 128 <= b1).
+Proof.
+  intro E. pose proof (bigint_nonredundant z) as H. rewrite E in H. cbn [redundant] in H. lia.
+Qed.
+
+Lemma bigint_minimal z bs : bytes_ok bs = true -> bs <> [] -> bigint_set_bytes bs = z ->
+  (length (bigint_to_bytes z) <= length bs)%nat.
+Proof.
+  intros Hok Hne Hv. rewrite bigint_set_bytes_spec in Hv by exact Hok.
+  rewrite bigint_to_bytes_length. apply (canon_bytes_shortest _ z bs (tc_len_spec z) Hok Hne Hv).
+Qed.
+
+Lemma bigint_shorter_differs z bs : bytes_ok bs = true -> bs <> [] ->
+  (length bs < length (bigint_to_bytes z))%nat -> bigint_set_bytes bs <> z.
+Proof. intros Hok Hne Hl Hv. pose proof (bigint_minimal z bs Hok Hne Hv). lia. Qed.
+
+Lemma bigint_same_length_unique z bs : bytes_ok bs = true -> bigint_set_bytes bs = z ->
+  length bs = length (bigint_to_bytes z) -> bs = bigint_to_bytes z.
+Proof.
+  intros Hok Hv Hl. rewrite bigint_set_bytes_spec in Hv by exact Hok.
+  rewrite bigint_to_bytes_length in Hl. rewrite bigint_to_bytes_spec.
+  apply (canon_bytes_unique _ z bs (tc_len_spec z) Hok Hv Hl).
+Qed.
+
+Lemma bigint_canonical_iff bs : bytes_ok bs = true ->
+  bigint_to_bytes (bigint_set_bytes bs) = bs <-> bs <> [] /\ redundant bs = false.
+Proof.
+  intro Hok. rewrite bigint_set_bytes_spec by exact Hok. rewrite bigint_to_bytes_spec. split.
+  - intro E. rewrite <- E. split; [apply tc_enc_nonempty|apply tc_enc_nonredundant].
+  - intros [Hne Hr]. symmetry.
+    apply (nonredundant_unique _ _ bs (tc_len_spec _) Hok Hne Hr eq_refl).
+Qed.
+
+(* ================================================================== *)
+(* 8. hex text layer                                                   *)
+(* ================================================================== *)
+Definition is_lhex (c : N) : bool := ((48 <=? c) && (c <=? 57)) || ((97 <=? c) && (c <=? 102)).
+
+Definition digits_val (b : N) (ds : bytes) (acc : N) : N :=
+  fold_left (fun a c => a * b + big_digit_val c) ds acc.
+
+(* the digits after "0x" produced by encodeHexNumber *)
+Definition hex_strip (b : bytes) : bytes :=
+  match hex_encode b with
+  | [] => [c_0]
+  | c :: r => if c =? c_0 then r else c :: r
+  end.
+
+(* encodeHexNumber ignores neg when the byte string is empty ("0x0") *)
+Lemma encode_hex_number_eq (neg : bool) b : (neg = true -> b <> []) ->
+  encode_hex_number neg b = (if neg then [c_minus] else []) ++ c_0 :: c_x :: hex_strip b.
+Proof.
+  intro H. unfold encode_hex_number, hex_strip. destruct b as [|x r].
+  - destruct neg; [now specialize (H eq_refl)|reflexivity].
+  - cbn [hex_encode]. destruct neg; reflexivity.
+Qed.
+
+Lemma nat_bytes_nonempty n : n <> 0 -> nat_bytes n <> [].
+Proof. intros Hn E. apply Hn. rewrite <- (be_val_nat_bytes n), E. reflexivity. Qed.
+
+Lemma size_to_bytes_nonempty v : v < 2 ^ 64 -> size_to_bytes v <> [].
+Proof.
+  intros H E. destruct (size_to_bytes_spec v H) as (k & Hk & Ek & _). rewrite Ek in E.
+  apply (f_equal (@length N)) in E. rewrite be_bytes_length in E. cbn in E. lia.
+Qed.
+
+Lemma hexdigit_facts d : d < 16 ->
+  is_lhex (hexdigit d) = true /\ big_digit_val (hexdigit d) = d /\ ((hexdigit d =? c_0) = (d =? 0)).
+Proof.
+  intro H.
+  assert (E : (is_lhex (hexdigit d) && (big_digit_val (hexdigit d) =? d)
+               && Bool.eqb (hexdigit d =? c_0) (d =? 0)) = true).
+  { apply (N_lt_forallb 16 (fun d => is_lhex (hexdigit d) && (big_digit_val (hexdigit d) =? d)
+               && Bool.eqb (hexdigit d =? c_0) (d =? 0))); [vm_compute; reflexivity|exact H]. }
+  apply andb_true_iff in E as [E E3]. apply andb_true_iff in E as [E1 E2].
+  split; [exact E1|]. split; [now apply N.eqb_eq|now apply Bool.eqb_prop].
+Qed.
+
+(* what the three digit readers do with a lower-case hex digit *)
+Definition strconv_digit (c : N) : option N :=
+  if (c_0 <=? c) && (c <=? c_9) then Some (c - c_0)
+  else if (c_a <=? lower c) && (lower c <=? c_z) then Some (lower c - c_a + 10)
+  else None.
+
+Lemma lhex_facts c : is_lhex c = true ->
+  (c =? c_us) = false /\ big_digit_val c < 16 /\ strconv_digit c = Some (big_digit_val c).
+Proof.
+  intro H. assert (Hc : c < 256) by (unfold is_lhex in H; lia).
+  assert (E : implb (is_lhex c) (negb (c =? c_us) && (big_digit_val c <? 16)
+               && match strconv_digit c with Some d => d =? big_digit_val c | None => false end) = true).
+  { apply (N_lt_forallb 256 (fun c => implb (is_lhex c) (negb (c =? c_us) && (big_digit_val c <? 16)
+               && match strconv_digit c with Some d => d =? big_digit_val c | None => false end)));
+      [vm_compute; reflexivity|exact Hc]. }
+  rewrite H in E. cbn [implb] in E.
+  apply andb_true_iff in E as [E E3]. apply andb_true_iff in E as [E1 E2].
+  split; [now apply negb_true_iff|]. split; [now apply N.ltb_lt|].
+  destruct (strconv_digit c); [|discriminate]. apply N.eqb_eq in E3. now subst.
+Qed.
+
+Lemma hex_encode_lhex bs : bytes_ok bs = true -> forallb is_lhex (hex_encode bs) = true.
+Proof.
+  induction bs as [|b r IH]; intro H; [reflexivity|]. apply bytes_ok_cons in H as [Hb Hr].
+  cbn [hex_encode forallb]. rewrite (IH Hr).
+  destruct (hexdigit_facts (b / 16)) as (-> & _); [lia|].
+  destruct (hexdigit_facts (b mod 16)) as (-> & _); [lia|]. reflexivity.
+Qed.
+
+Lemma digits_val_hex_encode bs : forall acc, bytes_ok bs = true ->
+  digits_val 16 (hex_encode bs) acc = acc * P256 (length bs) + be_val bs.
+Proof.
+  induction bs as [|b r IH]; intros acc H.
+  - cbn [hex_encode length]. unfold digits_val. cbn [fold_left]. rewrite P256_0, be_val_nil. lia.
+  - apply bytes_ok_cons in H as [Hb Hr]. cbn [hex_encode length]. unfold digits_val in *. cbn [fold_left].
+    rewrite (IH _ Hr).
+    destruct (hexdigit_facts (b / 16)) as (_ & -> & _); [lia|].
+    destruct (hexdigit_facts (b mod 16)) as (_ & -> & _); [lia|].
+    rewrite be_val_cons, P256_S.
+    replace ((acc * 16 + b / 16) * 16 + b mod 16) with (acc * 256 + b) by lia. ring.
+Qed.
+
+Lemma hex_strip_props b : bytes_ok b = true ->
+  hex_strip b <> [] /\ forallb is_lhex (hex_strip b) = true /\ digits_val 16 (hex_strip b) 0 = be_val b.
+Proof.
+  intro H. pose proof (hex_encode_lhex b H) as Hl. pose proof (digits_val_hex_encode b 0 H) as Hd.
+  rewrite N.mul_0_l, N.add_0_l in Hd. unfold hex_strip. destruct b as [|x r]; [repeat split; discriminate|].
+  apply bytes_ok_cons in H as [Hx Hr]. cbn [hex_encode] in *.
+  destruct (hexdigit_facts (x / 16)) as (_ & Hv & Hz); [lia|].
+  rewrite Hz. destruct (N.eqb_spec (x / 16) 0) as [E|E].
+  - split; [discriminate|]. cbn [forallb] in Hl. apply andb_true_iff in Hl as [_ Hl].
+    split; [exact Hl|]. rewrite <- Hd. unfold digits_val. cbn [fold_left]. rewrite Hv, E. reflexivity.
+  - split; [discriminate|]. split; [exact Hl|]. exact Hd.
+Qed.
+
+(* ---- math/big scanner on lower-case hex digits ---- *)
+Lemma scan_loop_hex ds : forall pv inval count acc, forallb is_lhex ds = true ->
+  scan_loop true 16 ds pv inval count acc =
+  {| sc_acc := digits_val 16 ds acc; sc_count := count + N.of_nat (length ds);
+     sc_prev := match ds with [] => pv | _ => PDigit end; sc_inval := inval; sc_rest := [] |}.
+Proof.
+  induction ds as [|c r IH]; intros pv inval count acc H.
+  - cbn [scan_loop length digits_val fold_left]. f_equal. lia.
+  - cbn [forallb] in H. apply andb_true_iff in H as [Hc Hr].
+    destruct (lhex_facts c Hc) as (Hus & Hlt & _).
+    cbn [scan_loop]. rewrite Hus. cbn [andb].
+    replace (16 <=? big_digit_val c) with false by lia.
+    rewrite (IH _ _ _ _ Hr). unfold digits_val. cbn [fold_left length]. f_equal; [lia|].
+    destruct r; reflexivity.
+Qed.
+
+Lemma nat_scan_0x ds : nat_scan 0 (c_0 :: c_x :: ds) = scan_finish false (scan_loop true 16 ds PDigit false 0 0).
+Proof. reflexivity. Qed.
+
+Lemma big_set_string_0x (neg : bool) ds : ds <> [] -> forallb is_lhex ds = true ->
+  big_set_string ((if neg then [c_minus] else []) ++ c_0 :: c_x :: ds) 0 =
+  Some (if neg then (- Z.of_N (digits_val 16 ds 0))%Z else Z.of_N (digits_val 16 ds 0)).
+Proof.
+  intros Hne Hl.
+  assert (E : nat_scan 0 (c_0 :: c_x :: ds) = Some (digits_val 16 ds 0, [])).
+  { rewrite nat_scan_0x, (scan_loop_hex ds _ _ _ _ Hl). unfold scan_finish.
+    cbn [sc_inval sc_prev sc_count sc_acc sc_rest orb].
+    destruct ds as [|d r]; [congruence|]. cbn [prev_is_sep length].
+    replace (0 + N.of_nat (S (length r)) =? 0) with false by lia. reflexivity. }
+  destruct neg; cbn [app]; unfold big_set_string.
+  - change (c_minus =? c_minus) with true. cbn [orb]. rewrite E. reflexivity.
+  - change (c_0 =? c_minus) with false. change (c_0 =? c_plus) with false. cbn [orb]. rewrite E. reflexivity.
+Qed.
+
+Lemma parse_bigint_0x (neg : bool) ds :
+  parse_bigint ((if neg then [c_minus] else []) ++ c_0 :: c_x :: ds) =
+  big_set_string ((if neg then [c_minus] else []) ++ c_0 :: c_x :: ds) 0.
+Proof. destruct neg; reflexivity. Qed.
+
+Lemma bigint_hex_roundtrip z : parse_bigint (format_bigint z) = Some z.
+Proof.
+  unfold format_bigint.
+  rewrite encode_hex_number_eq by (intro L; apply nat_bytes_nonempty; lia).
+  rewrite parse_bigint_0x.
+  destruct (hex_strip_props (nat_bytes (Z.abs_N z)) (nat_bytes_ok _)) as (Hne & Hl & Hv).
+  rewrite (big_set_string_0x _ _ Hne Hl), Hv, be_val_nat_bytes, N2Z.inj_abs_N. f_equal.
+  destruct (Z.ltb_spec z 0); lia.
+Qed.
+
+(* ---- strconv on lower-case hex digits ---- *)
+Lemma digits_val_ge b ds : forall acc, 1 <= b -> acc <= digits_val b ds acc.
+Proof.
+  induction ds as [|c r IH]; intros acc Hb; unfold digits_val in *; cbn [fold_left]; [lia|].
+  specialize (IH (acc * b + big_digit_val c) Hb). nia.
+Qed.
+
+Lemma parse_uint_loop_hex maxval ds : forall n us, forallb is_lhex ds = true ->
+  maxval <= max_uint64 -> digits_val 16 ds n <= maxval ->
+  parse_uint_loop 16 (max_uint64 / 16 + 1) maxval ds n us = Some (digits_val 16 ds n, us).
+Proof.
+  induction ds as [|c r IH]; intros n us H Hm Hv; [reflexivity|].
+  cbn [forallb] in H. apply andb_true_iff in H as [Hc Hr].
+  destruct (lhex_facts c Hc) as (Hus & Hlt & Hd). unfold strconv_digit in Hd.
+  unfold digits_val in Hv. cbn [fold_left] in Hv. fold (digits_val 16 r (n * 16 + big_digit_val c)) in Hv.
+  pose proof (digits_val_ge 16 r (n * 16 + big_digit_val c) ltac:(lia)) as Hge.
+  cbn [parse_uint_loop]. rewrite Hus, Hd.
+  replace (16 <=? big_digit_val c) with false by lia.
+  assert (Hn : n <= max_uint64 / 16) by (apply N.div_le_lower_bound; lia).
+  replace (max_uint64 / 16 + 1 <=? n) with false by lia.
+  replace (maxval <? n * 16 + big_digit_val c) with false by lia.
+  rewrite (IH _ _ Hr Hm Hv). reflexivity.
+Qed.
+
+Lemma parse_uint_0x ds bits : ds <> [] -> forallb is_lhex ds = true -> bits <= 64 ->
+  digits_val 16 ds 0 <= 2 ^ bits - 1 ->
+  parse_uint (c_0 :: c_x :: ds) bits = Some (digits_val 16 ds 0).
+Proof.
+  intros Hne Hl Hb Hv. destruct ds as [|d r]; [congruence|].
+  assert (Hm : 2 ^ bits - 1 <= max_uint64).
+  { unfold max_uint64. pose proof (pow2_le bits 64 Hb). lia. }
+  pose proof (parse_uint_loop_hex (2 ^ bits - 1) (d :: r) 0 false Hl Hm Hv) as E.
+  unfold parse_uint. change (c_0 =? c_0) with true. cbv iota beta.
+  change (Nat.leb 3 (length (c_0 :: c_x :: d :: r))) with true.
+  change (lower c_x =? c_b) with false. change (lower c_x =? c_o) with false.
+  change (lower c_x =? c_x) with true. cbn [andb]. cbv iota beta. rewrite E. reflexivity.
+Qed.
+
+Lemma format_uint_roundtrip v bits : bits <= 64 -> v < 2 ^ bits ->
+  parse_uint (format_uint v) bits = Some v.
+Proof.
+  intros Hb Hv. assert (H64 : v < 2 ^ 64) by (pose proof (pow2_le bits 64 Hb); lia).
+  unfold format_uint. rewrite encode_hex_number_eq by discriminate. cbn [app].
+  assert (Hok : bytes_ok (size_to_bytes v) = true).
+  { destruct (size_to_bytes_spec v H64) as (k & _ & -> & _). apply be_bytes_ok. }
+  destruct (hex_strip_props _ Hok) as (Hne & Hl & Hd). rewrite be_val_size_to_bytes in Hd by exact H64.
+  rewrite (parse_uint_0x _ bits Hne Hl Hb); rewrite Hd; [reflexivity|lia].
+Qed.
+
+Lemma format_int_roundtrip v bits : 1 <= bits <= 64 -> in_intn bits v = true ->
+  parse_int (format_int v) bits = Some v.
+Proof.
+  intros Hb Hv. unfold in_intn in Hv.
+  assert (Hp : (2 ^ (Z.of_N bits - 1) = Z.of_N (2 ^ (bits - 1)))%Z).
+  { rewrite N2Z.inj_pow. f_equal. lia. }
+  rewrite Hp in Hv. clear Hp.
+  assert (Hpp : 2 ^ bits = 2 * 2 ^ (bits - 1)).
+  { replace bits with (bits - 1 + 1) at 1 by lia. rewrite N.pow_add_r. change (2 ^ 1) with 2. lia. }
+  pose proof (pow2_le bits 64 ltac:(lia)) as H64.
+  set (a := Z.abs_N v). assert (Ha : Z.of_N a = Z.abs v) by (subst a; apply N2Z.inj_abs_N).
+  assert (Ha64 : a < 2 ^ 64) by lia.
+  unfold format_int. fold a. rewrite encode_hex_number_eq by (intros _; now apply size_to_bytes_nonempty).
+  assert (Hok : bytes_ok (size_to_bytes a) = true).
+  { destruct (size_to_bytes_spec a Ha64) as (k & _ & -> & _). apply be_bytes_ok. }
+  destruct (hex_strip_props _ Hok) as (Hne & Hl & Hd). rewrite be_val_size_to_bytes in Hd by exact Ha64.
+  assert (E : parse_uint (c_0 :: c_x :: hex_strip (size_to_bytes a)) bits = Some a).
+  { rewrite (parse_uint_0x _ bits Hne Hl ltac:(lia)); rewrite Hd; [reflexivity|lia]. }
+  destruct (Z.ltb_spec v 0) as [L|L]; cbn [app]; unfold parse_int.
+  - change (c_minus =? c_minus) with true. change (c_minus =? c_plus) with false. cbn [orb negb andb].
+    rewrite E. replace (2 ^ (bits - 1) <? a) with false by lia. f_equal. lia.
+  - change (c_0 =? c_minus) with false. change (c_0 =? c_plus) with false. cbn [orb negb andb].
+    rewrite E. replace (2 ^ (bits - 1) <=? a) with false by lia. f_equal. lia.
+Qed.
+
+(* shape of the produced text: optional '-', "0x", lower-case hex digits *)
+Lemma format_bigint_shape z : exists ds,
+  format_bigint z = (if (z <? 0)%Z then [c_minus] else []) ++ c_0 :: c_x :: ds /\
+  ds <> [] /\ forallb is_lhex ds = true /\ digits_val 16 ds 0 = Z.abs_N z.
+Proof.
+  exists (hex_strip (nat_bytes (Z.abs_N z))). unfold format_bigint.
+  rewrite encode_hex_number_eq by (intro L; apply nat_bytes_nonempty; lia).
+  destruct (hex_strip_props (nat_bytes (Z.abs_N z)) (nat_bytes_ok _)) as (Hne & Hl & Hv).
+  rewrite be_val_nat_bytes in Hv. auto.
+Qed.
+
+(* ================================================================== *)
+(* 9. statements used by Prop_C24 and non-vacuity examples             *)
+(* ================================================================== *)
+Lemma bigint_minimal_unique z bs : bytes_ok bs = true -> bs <> [] -> bigint_set_bytes bs = z ->
+  (length (bigint_to_bytes z) <= length bs)%nat /\
+  (length bs = length (bigint_to_bytes z) -> bs = bigint_to_bytes z).
+Proof.
+  intros Hok Hne Hv. split; [now apply bigint_minimal|]. intro Hl. now apply bigint_same_length_unique.
+Qed.
+
+Lemma bigint_closed_form z :
+  bigint_to_bytes z = tc_bytes (tc_len z) z /\ tc_val (bigint_to_bytes z) = z /\
+  length (bigint_to_bytes z) = tc_len z.
+Proof.
+  rewrite bigint_to_bytes_spec. split; [reflexivity|]. split; [apply tc_val_enc|apply tc_enc_length].
+Qed.
+
+Lemma int64_decoder bs : bytes_ok bs = true ->
+  (bytes_to_int64 bs = None <-> (8 < length bs)%nat) /\
+  (forall v, bytes_to_int64 bs = Some v -> v = bigint_set_bytes bs /\ in_int64 v = true).
+Proof.
+  intro H. split; [apply bytes_to_int64_reject|]. intros v E.
+  rewrite bytes_to_int64_spec in E by exact H. rewrite bigint_set_bytes_spec by exact H.
+  destruct (Nat.ltb_spec 8 (length bs)); [discriminate|]. inversion E; subst.
+  split; [reflexivity|]. apply tc_val_int64_range; [exact H|lia].
+Qed.
+
+Lemma uint64_decoder bs : bytes_ok bs = true ->
+  (bytes_to_uint64 bs = None <->
+     exists b r, bs = b :: r /\
+       (128 <= b \/ (b = 0 /\ (8 < length r)%nat) \/ (0 < b < 128 /\ (8 < length bs)%nat))) /\
+  (forall v, bytes_to_uint64 bs = Some v -> Z.of_N v = bigint_set_bytes bs /\ v < 2 ^ 64).
+Proof.
+  intro H. split; [now apply bytes_to_uint64_reject|]. intros v E.
+  rewrite bigint_set_bytes_spec by exact H. now apply bytes_to_uint64_value.
+Qed.
+
+Lemma size64_decoder bs :
+  (bytes_to_size64 bs = None <-> (8 < length bs)%nat) /\
+  ((length bs <= 8)%nat -> bytes_to_size64 bs = Some (be_val bs)).
+Proof. split; [apply bytes_to_size64_reject|apply bytes_to_size64_value]. Qed.
+
+Lemma empty_decodes_zero :
+  bigint_set_bytes [] = 0%Z /\ bytes_to_int64 [] = Some 0%Z /\ bytes_to_uint64 [] = Some 0 /\
+  bytes_to_size64 [] = Some 0 /\ bigint_to_bytes 0 = [0].
+Proof. repeat split. Qed.
+
+(* boundary encodings, as in the Go code *)
+Example ex_bigint_boundaries :
+  bigint_to_bytes 0 = [0] /\ bigint_to_bytes (-1) = [255] /\
+  bigint_to_bytes 127 = [127] /\ bigint_to_bytes 128 = [0; 128] /\
+  bigint_to_bytes (-128) = [128] /\ bigint_to_bytes (-129) = [255; 127] /\
+  bigint_to_bytes 255 = [0; 255] /\ bigint_to_bytes 256 = [1; 0] /\
+  bigint_to_bytes (-256) = [255; 0] /\ bigint_to_bytes (-32768) = [128; 0] /\
+  bigint_to_bytes (-32769) = [255; 127; 255] /\ bigint_to_bytes 32768 = [0; 128; 0].
+Proof. vm_compute. repeat split. Qed.
+
+Example ex_int64_range :
+  in_int64 (-9223372036854775808) = true /\ in_int64 9223372036854775807 = true /\
+  int64_to_bytes (-9223372036854775808) = [128; 0; 0; 0; 0; 0; 0; 0] /\
+  int64_to_bytes 9223372036854775807 = [127; 255; 255; 255; 255; 255; 255; 255] /\
+  in_int64 9223372036854775808 = false.
+Proof. vm_compute. repeat split. Qed.
+
+Example ex_uint64_range :
+  18446744073709551615 < 2 ^ 64 /\
+  uint64_to_bytes 18446744073709551615 = [0; 255; 255; 255; 255; 255; 255; 255; 255] /\
+  size_to_bytes 18446744073709551615 = [255; 255; 255; 255; 255; 255; 255; 255] /\
+  bytes_to_uint64 [0; 255; 255; 255; 255; 255; 255; 255; 255] = Some 18446744073709551615 /\
+  bytes_to_uint64 [1; 0; 0; 0; 0; 0; 0; 0; 0] = None /\
+  bytes_to_uint64 [128] = None /\ bytes_to_uint64 [0; 128] = Some 128.
+Proof. vm_compute. repeat split. Qed.
+
+(* hypotheses of the minimality theorems are satisfiable; decoders accept non-minimal input *)
+Example ex_minimal :
+  bytes_ok [0; 0; 128] = true /\ [0; 0; 128] <> [] /\ bigint_set_bytes [0; 0; 128] = 128%Z /\
+  length (bigint_to_bytes 128) = 2%nat /\ redundant [0; 0; 128] = true /\
+  bigint_set_bytes [127] <> 128%Z /\ (length [127] < length (bigint_to_bytes 128))%nat /\
+  bigint_set_bytes [255; 255] = (-1)%Z /\ bytes_to_int64 [255; 255; 128] = Some (-128)%Z /\
+  bytes_to_int64 [0; 0; 0; 0; 0; 0; 0; 0; 1] = None.
+Proof. vm_compute. repeat split; try discriminate; auto with arith. Qed.
+
+Example ex_hex :
+  format_bigint (-255) = [45; 48; 120; 102; 102] /\               (* "-0xff" *)
+  format_bigint 0 = [48; 120; 48] /\                                (* "0x0" *)
+  format_int (-9223372036854775808) = [45;48;120;56;48;48;48;48;48;48;48;48;48;48;48;48;48;48;48] /\
+  in_intn 16 (-32768) = true /\ in_intn 16 32768 = false /\
+  parse_int [45; 48; 120; 56; 48; 48; 48] 16 = Some (-32768)%Z /\  (* "-0x8000" *)
+  parse_int [48; 120; 56; 48; 48; 48] 16 = None /\                 (* "0x8000" at 16 bits *)
+  parse_bigint [] = None /\                                         (* "" *)
+  parse_bigint [48; 120] = None /\                                  (* "0x" *)
+  parse_bigint [48; 88; 102] = None /\                              (* "0Xf" *)
+  parse_bigint [48; 120; 70; 102] = Some 255%Z /\                   (* "0xFf": upper-case digits accepted *)
+  parse_bigint [48; 120; 48; 48; 102] = Some 15%Z /\                (* "0x00f": leading zeros accepted *)
+  parse_bigint [102; 102] = None /\                                 (* "ff": no prefix means decimal *)
+  parse_bigint [49; 50] = Some 12%Z /\                              (* "12" *)
+  parse_bigint [48; 49; 55] = Some 17%Z /\                          (* "017" is decimal for HexInt ... *)
+  parse_int [48; 49; 55] 64 = Some 15%Z /\                          (* ... but octal for HexInt64 *)
+  parse_bigint [43; 48; 88; 102] = Some 15%Z /\                     (* "+0Xf" slips past the prefix filter *)
+  parse_bigint [43; 48; 49; 55] = Some 15%Z.                        (* "+017" is octal *)
+Proof. vm_compute. repeat split. Qed.
+
+Lemma bigint_wellformed z :
+  bigint_to_bytes z <> [] /\ bytes_ok (bigint_to_bytes z) = true /\ redundant (bigint_to_bytes z) = false.
+Proof. exact (conj (bigint_to_bytes_nonempty z) (conj (bigint_to_bytes_ok z) (bigint_nonredundant z))). Qed.
